@@ -163,6 +163,13 @@ func TestVerifC18FeeFunction(t *testing.T) {
 				labels = append(labels, "f2_clamped")
 			} else {
 				labels = append(labels, "f2_start_above_end")
+				if !fromEstim {
+					// The property caps every offered rate at
+					// the ceiling: a correct function starts
+					// at the ceiling when the caller asks for
+					// more.
+					expStart = end
+				}
 			}
 		}
 		if !fromEstim {
